@@ -25,7 +25,7 @@ def shrink(case):
     return B.shrink_case(case)
 
 
-def set_failures(r, ys, fail):
+def set_failures(r, ys, fail, complete=True):
     Y = [B.show(p) for p in ys]
     L = {B.show(p) for p, _ in r["lang"]}
     if len(Y) != len(set(Y)):
@@ -33,7 +33,7 @@ def set_failures(r, ys, fail):
     extra = sorted(set(Y) - L)
     if extra:
         fail("oracle", "a program outside the language is yielded", str(extra[:3]))
-    missing = sorted(L - set(Y))
+    missing = sorted(L - set(Y)) if complete else []
     if missing:
         fail("oracle", "a program of the language is never yielded", f"{len(missing)} of {len(L)} missing, e.g. {missing[:3]}")
 
@@ -61,9 +61,12 @@ def check(case, M):
     if r["err"] is not None:
         fail("oracle", "the enumerator raises instead of enumerating", r["err"])
     else:
-        if r["cut"] or not r["steps"] or not r["steps"][-1][1]:
-            fail("oracle", "the enumerator does not stop", f"still running after {r['rounds']} rounds, cheapest queued cost above every program of the language")
-        set_failures(r, ys, fail)
+        if r["budget_cut"]:
+            set_failures(r, ys, fail, complete=False)       # inconclusive run: only what was yielded is judged
+        else:
+            if r["cut"] or not r["steps"] or not r["steps"][-1][1]:
+                fail("oracle", "the enumerator does not stop", f"still running after {r['rounds']} rounds, cheapest queued cost above every program of the language")
+            set_failures(r, ys, fail)
     if case.get("fseed") is not None and not failures:
         float_search(case, r, fail)
     ties, ncost = B.ntie_groups(r["lang"])
@@ -112,7 +115,7 @@ def float_search(case, r, fail):
 
 
 def corpus():
-    # C02-F4 witnesses: single-rule non-terminals (probability 1 -> cost 0) in a chain; a Boolean test on top of
+    # C02-F6 witnesses: single-rule non-terminals (probability 1 -> cost 0) in a chain; a Boolean test on top of
     # an arithmetic grammar with skewed weights at threshold 1
     return [
         {"family": "fin", "build": {"src": "prims", "prims": B.CHAIN_DSLS[0], "forbidden": [], "request": "b", "kind": "cfg", "max_depth": 4, "min_var": 1, "n_gram": 2},
